@@ -74,6 +74,32 @@ def monitor(s, ev, evec, kind, v, t, k):
     return None
 
 
+# ARPACK's Lanczos iteration starts from a random vector that scipy draws anew for every call; on EXACTLY repeated eigenvalues (perfectly
+# symmetric meshes, congruent components) a single run occasionally misses a copy (observed on the unmodified library: of the order of 1 call
+# in 100).  Completeness is the assumed contract of the external kernel; a deviation that depends on the start vector is filtered by repeating
+# the call: the clause is reported only if it fails in the majority of three independent calls (a defect of LaPy's own code persists).
+START_VECTOR_CLAUSES = ("smallest", "zero-eigenvalues", "zero-eigenvector")
+
+
+def majority(case, first, stats):
+    bad = [first]
+    for _ in range(2):
+        try:
+            s2, _, ev2, evec2 = run_eigs(case["kind"], np.asarray(case["v"], float), np.asarray(case["t"], dtype=np.int64), bool(case["lump"]), int(case["k"]),
+                                         pre=case.get("pre"))
+        except Exception as e:  # noqa: BLE001
+            bad.append(("runs", "eigs raised %s on a repeated call: %s" % (type(e).__name__, e)))
+            continue
+        m2 = monitor(s2, ev2, evec2, case["kind"], np.asarray(case["v"], float), np.asarray(case["t"], dtype=np.int64), int(case["k"]))
+        if m2 is not None:
+            bad.append(m2)
+    if len(bad) >= 2:
+        return first
+    if stats is not None:
+        stats.monitor("eigsh deviations that did not repeat with another random start vector (contract of the external kernel)")
+    return None
+
+
 class Check(BaseCheck):
     id = "C03"
     audit_mod = "LapyVerif.Audit.C03"
@@ -144,6 +170,8 @@ class Check(BaseCheck):
             if case["dt"] == "f64":
                 mon = monitor(s, ev, evec, case["kind"], v, t, k)
                 stats.monitor("eigsh contract checked")
+                if mon is not None and mon[0] in START_VECTOR_CLAUSES:
+                    mon = majority(case, mon, stats)
                 if mon is not None:
                     fails.append(core.Failure("monitor", "eigsh contract: " + mon[0], mon[1], case))
             if len(fails) > 5:
@@ -167,4 +195,6 @@ class Check(BaseCheck):
         except Exception as e:  # noqa: BLE001
             return core.Violation("runs", "eigs raised %s: %s" % (type(e).__name__, e), case)
         mon = monitor(s, ev, evec, case["kind"], v, t, k)
+        if mon is not None and mon[0] in START_VECTOR_CLAUSES:
+            mon = majority(dict(case, v=v, t=t), mon, None)
         return None if mon is None else core.Violation(mon[0], mon[1], case)
